@@ -233,6 +233,13 @@ def build(sw):
         salt = salt_bytes([0, 1, 16, 33][k % 4])
         sw.add("scrypt", dict(fmt="scrypt", rounds=ln, r=r, p=p), dict(password=pw, salt=salt),
                lambda h, pw, salt=salt, ln=ln, r=r, p=p: h.using(salt=salt, rounds=ln, block_size=r, parallelism=p).hash(pw))
+    # scrypt's own "$7$" spelling (salt is text there)
+    for k, (ln, r, p) in enumerate([(1, 1, 1), (2, 8, 1), (4, 2, 3), (3, 1, 2), (1, 63, 1), (1, 64, 1), (2, 1, 65)]):
+        plen = sw.plens()[k % len(sw.plens())]
+        pw = content(sw.kinds(plen)[0], plen, rnd)
+        st = salt_text([0, 1, 14, 22][k % 4])
+        sw.add("scrypt", dict(fmt="scrypt7", rounds=ln, r=r, p=p), dict(password=pw, salt=st.encode()),
+               lambda h, pw, st=st, ln=ln, r=r, p=p: h.using(ident="$7$", salt=st.encode(), rounds=ln, block_size=r, parallelism=p).hash(pw), label="scrypt/$7$")
     # scram: per-algorithm digests
     for k, plen in enumerate(sw.plens(cap=300)):
         pwt = content(["ascii", "latin"][k % 2], plen, rnd)          # SASLprep-clean text (no code points unassigned in Unicode 3.2)
@@ -361,11 +368,22 @@ def run(chk):
                         "SHA/MD5/DES/Blowfish internals are C11's subject or trusted; this check is about which bytes are fed to them and how the result is encoded"]
 
 
+def seven_vector():
+    """Tarsnap's published "$7$" vector: pleaseletmein / SodiumChloride, N=2^14, r=8, p=1"""
+    import hashlib
+    key = hashlib.scrypt(b"pleaseletmein", salt=b"SodiumChloride", n=16384, r=8, p=1, dklen=32, maxmem=2 ** 26)
+    prog = {"defs": [], "out": ["catseq", [["str", "$7$"], ["h64char", 14], ["h64int", 8, 5], ["h64int", 1, 5], ["lit", list(b"SodiumChloride")], ["str", "$"],
+                                          ["h64groups", ["lit", list(key)], [[3 * k + 2, 3 * k + 1, 3 * k, 4] for k in range(10)] + [[-1, 31, 30, 3]]]]]}
+    return terms.run_program(prog, {}).decode() == "$7$C6..../....SodiumChloride$kBGj9fHznVYFQMEn/qDCfrDevf9YDtcDdKvEqHJLV8D"
+
+
 def selfcheck(chk, sw, progs, prims):
     """the transcriptions against libxcrypt (a disagreement is a machinery failure)"""
     import legacycrypt
     n = 0
     seen = set()
+    if not seven_vector():
+        raise tlc.MachineryError("the $7$ encoding of Formats.tla / terms.py fails Tarsnap's published vector")
     for c in sw.cases:
         name = c["handler"]
         shape = sw.shapes[c["sid"] - 1]
